@@ -74,6 +74,9 @@ def cases(rng, tier):
         jwt = rng.random() < 0.3
         seed = rng.getrandbits(48)
         out.append({"t": "hist", "oidc": oidc, "jwt": jwt, "gen_seed": seed, "n": rng.randint(8, 22 if tier == "quick" else 40)})
+    for _ in range({"quick": 8, "thorough": 100, "search": 60}[tier]):
+        out.append({"t": "hist", "oidc": rng.random() < 0.7, "jwt": rng.random() < 0.3, "gen_seed": rng.getrandbits(48), "n": rng.randint(8, 18 if tier == "quick" else 36),
+                    "restore": rng.choice(["ctx", "ctx-json", "sm"])})
     for _ in range({"quick": 16, "thorough": 200, "search": 120}[tier]):
         out.append({"t": "session", "oidc": rng.random() < 0.7, "jwt": rng.random() < 0.3, "seed": rng.getrandbits(32)})
     # a client with usage rules of its own (partial ones): lifetimes and minting rights as merged, the clock moving past them
@@ -204,6 +207,16 @@ def _ops_for(c):
     import random
     ops, _ = prov.gen_adaptive(random.Random(c["gen_seed"]), c["n"], oidc=c["oidc"], jwt=c["jwt"], usage=c.get("usage"),
                                weights=XW if c.get("usage") == "exchange" else dict(tick=14, refresh=16, redeem=22) if c.get("usage") in ("c1rules", "norefrule", "nogrant") else None)
+    if c.get("restore"):
+        # the provider's state is exported and imported (into a fresh instance from the same configuration) at some points of the
+        # history: what was dead stays dead, whatever the import does to bring old state "in line"
+        rr = random.Random(c["gen_seed"] + 1)
+        out = []
+        for o in ops:
+            out.append(o)
+            if o[0] in ("revokeTok", "revokeEp", "refresh", "tokenProcess", "revokeGrant", "revokeClient", "logoutAll") and rr.random() < 0.5 or rr.random() < 0.08:
+                out.append(["restore", c["restore"]])
+        return out
     return ops
 
 
@@ -212,7 +225,11 @@ def impl(c):
     R = prov.Runner(c["oidc"], c["jwt"], usage=c.get("usage"))
     steps = []
     for o in ops:
-        r = R.op(o)
+        if o[0] == "restore":
+            R = R.restored(o[1])
+            r = ["ok"]
+        else:
+            r = R.op(o)
         proj = R.projection()
         # non-mutating probes of every token minted so far
         status = {}
@@ -233,7 +250,8 @@ def _owner(R, hnd):
 
 
 def model_lines(c, obs):
-    return [prov.cfg_line(c["oidc"], c["jwt"], c.get("usage"))] + [prov.model_line(o) for o in obs["ops"]]
+    # (an export / import is no event of the provider model: a tick of zero seconds)
+    return [prov.cfg_line(c["oidc"], c["jwt"], c.get("usage"))] + [prov.model_line(o if o[0] != "restore" else ["tick", 0]) for o in obs["ops"]]
 
 
 def compare(c, obs, outs):
